@@ -260,6 +260,17 @@ def u_contour(root):
     eng.lib["np.exp"] = lambda e, st, a, kw, n: VNum(exp(e.num(a[0], st).real()))
     eng.lib["np.array"] = lambda e, st, a, kw, n: a[0]
     eng.consts = {"_IMINUIT_1": VBool(z3.BoolVal(False))}
+
+    class CL(V):
+        """a ConfidenceLevel object by the contract proved in the units above: .cl = F_n(sigma^2), .sigma = sigma (n = n_dimensions, default 1)"""
+
+        def __init__(self, n, s):
+            self.n, self.s = n, s
+
+        def vattr(self, e, st, name):
+            return {"cl": VNum(F_chi2(self.n, self.s * self.s)), "sigma": VNum(self.s), "ndim": VNum(self.n)}.get(name)
+    eng.lib["class:ConfidenceLevel"] = lambda e, st, a, kw, n: CL((kw["n_dimensions"].e if "n_dimensions" in kw else a[0].e if a else z3.IntVal(1)), e.num(kw["sigma"], st).real()) if "sigma" in kw else (_ for _ in ()).throw(Unsupported("ConfidenceLevel built from cl / delta_nll in contour"))
+    eng.lib["ConfidenceLevel"] = eng.lib["class:ConfidenceLevel"]
     rec = {}
     mk(eng, "MinimizerBase", "did_fit", "getter", result=lambda vw: VBool(vw.f(vw.pre, vw.self, "_did_fit").e))
     mk(eng, "MinimizerIMinuit", "minimize", None, result=lambda vw: VNone())
